@@ -125,7 +125,7 @@ class Decider:
         return self._cmp(a, b, "le", exact)
 
 
-def lockstep(model, call, agree, exact=False, stats=None, max_flip=3):
+def lockstep(model, call, agree, exact=False, stats=None, max_flip=3, tie=TIE):
     """Advance ``model`` by one step in lock-step with the implementation.
 
     call(model_copy, decider) -> expected observation
@@ -138,7 +138,7 @@ def lockstep(model, call, agree, exact=False, stats=None, max_flip=3):
     False.
     """
     m0 = copy.deepcopy(model)
-    d0 = Decider(exact=exact)
+    d0 = Decider(exact=exact, tie=tie)
     exp0 = call(m0, d0)
     if stats is not None:
         if d0.exact_ties:
@@ -151,7 +151,7 @@ def lockstep(model, call, agree, exact=False, stats=None, max_flip=3):
     for k in range(1, min(max_flip, len(near)) + 1):
         for flips in itertools.combinations(near, k):
             m1 = copy.deepcopy(model)
-            d1 = Decider(flips=flips, exact=exact)
+            d1 = Decider(flips=flips, exact=exact, tie=tie)
             exp1 = call(m1, d1)
             if agree(exp1):
                 if stats is not None:
